@@ -203,12 +203,14 @@ def check(case):
             pass
     if not cls and stress and abs(imb) <= 0.25 * app:
         cls = ':within-25-percent:' + '+'.join(sorted(set(stress)))
-    elif not cls and stress and bad and not case['loads']:
+    elif not cls and stress and bad:
         # beyond the cap: attributed to the thin-wire limit only if the same structure with thin wires (all radii
         # <= 1e-5 wavelength, equal at the junctions) balances within 5 %
         try:
             thin = {k_: v_ for k_, v_ in case.items()}
             thin['objs'] = [dict(o_) for o_ in case['objs']]
+            # (distributed loads depend on the radius: the thin version keeps the lumped loads only)
+            thin['loads'] = [l_ for l_ in case['loads'] if 'attach' in l_]
             rmin = min(min(o_['r'] for o_ in thin['objs']), 1e-5 * 299.8 / case['f'])
             for o_ in thin['objs']:
                 o_['r'] = rmin
@@ -216,7 +218,7 @@ def check(case):
             I4 = np.array(m4.current)
             pin4 = sum(0.5 * (v * np.conj(I4[s['_idx']])).real for v, s in zip(V, case['sources']))
             app4 = sum(0.5 * abs(v * I4[s['_idx']]) for v, s in zip(V, case['sources']))
-            imb4 = pin4 - pin4 * radiated_fraction(m4, ground, 32, 48)
+            imb4 = pin4 - load_power(thin, m4, topo, I4) - pin4 * radiated_fraction(m4, ground, 32, 48)
             if pin4 > 1e-6 * app4 and abs(imb4) <= 0.05 * app4:
                 cls = ':within-25-percent:thin-version-balances:' + '+'.join(sorted(set(stress)))
         except Exception:
